@@ -241,7 +241,7 @@ def c09() -> int:
     fsx(c, REQ + ({"requests": ["p0", "p1", "r2"], "name": "W-req/pooling/atomic", "prestart": ("p0", "p1")},), ("hivemc.bundles", "c09_atomicity", {}), K=2, H=5 if quick else 7,
         needs=["c09:refused:Pool", "c09:refused:DispatchTrip"])
     fsx(c, ("hivemc.w_prec", "make", {}), ("hivemc.bundles", "c09_precedence", {}), K=2 if quick else 3, H=6 if quick else 8,
-        needs=["c09:winner:driver", "c09:winner:G1", "c09:winner:G2", "c09:both_generators_same_vehicle"])
+        needs=["c09:winner:driver", "c09:winner:G1", "c09:winner:G2", "c09:both_generators_same_vehicle", "c09:one_generator_two_instructions_same_vehicle"])
     return c.finish()
 
 
